@@ -14,6 +14,9 @@ A unit spec is a dict:
   timeout   seconds
   mode      'proof' | 'bounded' ; bound: text
   reach     number of VP_REACH assertions that must FAIL (vacuity guard), default 1
+  split     K > 1: the generated obligations are partitioned round-robin into K groups that are checked by K concurrent
+            cbmc processes (`--property` per obligation; the other assertions are dropped, not assumed) - same program,
+            same obligations, same verdict per obligation; only the wall time changes
 """
 import os, re, subprocess, time, resource, json
 from .core import WORK, ensure_dir, write, Undecided, sha
@@ -36,6 +39,40 @@ def _run(cmd, timeout, cwd):
         if isinstance(out, bytes):
             out = out.decode("utf-8", "replace")
         return -9, out + "\n<<TIMEOUT after %ss>>" % timeout, time.time() - t0
+
+
+def _run_split(cb, K, timeout, wd):
+    """Partition the obligations into K groups and check them concurrently.  Returns (rc, concatenated output, wall)."""
+    from concurrent.futures import ThreadPoolExecutor
+    t0 = time.time()
+    base = [c for c in cb if c != "--verbosity" and c != "8"]
+    rc, out, _ = _run(base + ["--show-properties", "--json-ui"], 300, wd)
+    names = []
+    try:
+        for x in json.loads(out[out.index("["):]):
+            if isinstance(x, dict) and "properties" in x:
+                names = [p_["name"] for p_ in x["properties"]]
+    except Exception:
+        names = []
+    if len(names) < 2 * K:
+        return _run(cb, timeout, wd)
+    groups = [names[i::K] for i in range(K)]
+
+    def one(g):
+        cmd = list(cb)
+        for n in g:
+            cmd += ["--property", n]
+        return _run(cmd, timeout, wd)
+    with ThreadPoolExecutor(K) as ex:
+        rs = list(ex.map(one, groups))
+    outs = "\n".join("==== property group %d/%d (rc=%s) ====\n%s" % (i + 1, K, r[0], r[1]) for i, r in enumerate(rs))
+    if any(r[0] == -9 for r in rs):
+        return -9, outs + "\n<<TIMEOUT after %ss>>" % timeout, time.time() - t0
+    bad = [r[0] for r in rs if r[0] not in (0, 10)]
+    if bad:     # a group without a verdict: make sure no overall verdict is read from the others
+        outs = outs.replace("VERIFICATION SUCCESSFUL", "(group) SUCCESSFUL").replace("VERIFICATION FAILED", "(group) FAILED")
+        return bad[0], outs, time.time() - t0
+    return (10 if any(r[0] == 10 for r in rs) else 0), outs, time.time() - t0
 
 
 LINE = re.compile(r"^\[(?P<name>[^\]]+)\]\s+(?P<desc>.*):\s+(?P<st>SUCCESS|FAILURE|ERROR|UNKNOWN)\s*$")
@@ -116,9 +153,13 @@ def run_unit(spec):
         cb += ["--z3"]
     cb += spec.get("flags", [])
     cb += ["--verbosity", "8"]       # prints "Runtime decision procedure: <s>" (solver time for the evidence)
-    rc, out, dt = _run(cb, timeout, wd)
-    write(os.path.join(wd, "cbmc.log"), " ".join(cb) + "\n" + out)
-    cmds.append(" ".join(cb))
+    K = int(spec.get("split", 0) or 0)
+    if K > 1:
+        rc, out, dt = _run_split(cb, K, timeout, wd)
+    else:
+        rc, out, dt = _run(cb, timeout, wd)
+    write(os.path.join(wd, "cbmc.log"), " ".join(cb) + ("   [split into %d property groups]" % K if K > 1 else "") + "\n" + out)
+    cmds.append(" ".join(cb) + (" (x%d property groups)" % K if K > 1 else ""))
     res["checker_cmd"] = " && ".join(cmds)
     res["wall_s"] = round(time.time() - t0, 2)
     res["solver_s"] = round(sum(float(x) for x in re.findall(r"Runtime decision procedure: ([0-9.eE+-]+)s", out)), 3)
